@@ -473,6 +473,14 @@ static void run_C07(const Args &a, long cs) {
 	Rng r(a.seed, "C07", cs);
 	Spec s = small_spec(r);
 	Mut m = mutate(r, s);
+	if (cs % 40 == 17) {
+		// an untouched, well-formed table one dimension of which has a spline order far above the usual (ORDERn is whatever the file says): everything the
+		// battery does on it - second derivatives included - has to come back
+		Spec t; int nd = r.range(1, 2);
+		for (int d = 0; d < nd; d++) { unsigned o = d == 0 ? (unsigned)r.range(28, 44) : (unsigned)r.below(3); int nk = 2 * (int)o + 2 + (int)r.below(4); t.order.push_back(o); t.knots.push_back(gen_knots(r, o, nk, (int)r.below(2), 1.0, r.U() * 4 - 2, true)); }
+		t.coef.resize(t.ncoef()); for (auto &c : t.coef) c = (float)(r.U() - 0.5); t.flavor = "high-order";
+		s = t; m = Mut(); m.name = "none:well-formed-table-of-high-order"; m.expect_valid = true; m.bytes = raw_encode(raw_from_spec(t));
+	}
 	count("mutants"); count("mutation:" + m.name.substr(0, m.name.find(':')));
 	uint64_t h = 5; for (unsigned char c : m.bytes) h = h * 1099511628211ULL ^ c; distinct(hash_mix(h, m.bytes.size()));
 	std::string path = g_tmp + "/m." + std::to_string(getpid()) + ".fits";
